@@ -306,6 +306,10 @@ func c05Msg(r *ev.Run, n *wire.N, what string) {
 	if n.K == "error" && n.U["Type"] == 0xffff {
 		return // type 0xffff is the experimenter error: a different kind, generated separately
 	}
+	if n.K == "port_mod" && len(n.B["HWAddr"]) != 6 {
+		r.Add("skipped_port_mod_with_an_address_the_wire_cannot_hold", 1) // not a two-way value: the wire has six bytes
+		return
+	}
 	if n.K == "packet_in" && len(n.B["Data"]) == 0 {
 		r.Add("skipped_packet_in_without_payload", 1) // not representable: the payload is an Ethernet value
 		return
